@@ -60,6 +60,8 @@ func fatalf(format string, a ...any) {
 
 // Ctx is the loaded, type-checked, SSA-built repository plus the obligations collected so far.
 type Ctx struct {
+	alias    map[*ssa.Function]string // renamed function -> its recorded (reference-tree) name
+	byAlias  map[string]*ssa.Function
 	hpats    []helperPat
 	hpatBusy bool
 	repo     string
@@ -134,6 +136,9 @@ func loadModule(repo, arch, tier, module string) *Ctx {
 			c.decls[declName(fd)] = fd
 		}
 	}
+	if module == repoModule {
+		c.resolveRenames()
+	}
 	return c
 }
 
@@ -164,6 +169,9 @@ func (c *Ctx) fn(name string) *ssa.Function {
 }
 
 func (c *Ctx) fnOpt(name string) *ssa.Function {
+	if f, ok := c.byAlias[name]; ok {
+		return f
+	}
 	if strings.HasPrefix(name, "(") {
 		i := strings.Index(name, ").")
 		tn, mn := name[1:i], name[i+2:]
@@ -209,6 +217,9 @@ func (c *Ctx) pos(p token.Pos) string {
 func (c *Ctx) fname(f *ssa.Function) string {
 	if f == nil {
 		return "?"
+	}
+	if a, ok := c.alias[f]; ok {
+		return a
 	}
 	if f.Parent() != nil {
 		return c.fname(f.Parent()) + "$" + strings.TrimPrefix(f.Name(), f.Parent().Name()+"$")
